@@ -667,8 +667,9 @@ func validatedValue(w *World, f *ssa.Function, v ssa.Value, depth int) bool {
 			case *ssa.Extract:
 				walk(y.Tuple, d+1)
 			case *ssa.Call:
-				if len(y.Call.Args) > 0 {
-					walk(y.Call.Args[0], d+1)
+				// a validator may take the value in any argument position (method receivers first)
+				for _, a := range y.Call.Args {
+					walk(a, d+1)
 				}
 			case *ssa.Phi:
 				for _, ed := range y.Edges {
